@@ -1,3 +1,3 @@
 #!/bin/sh
 # (re-)evaluates every kept seeded change with the current harness: tools/eval_all_seeded.sh [parallelism]
-ls -d /verif/seeded/C*-m* | xargs -n1 basename | xargs -P ${1:-4} -I{} sh -c 'SKIP_SUITE=${SKIP_SUITE:-} /verif/tools/eval_mutant.sh /verif/seeded/{}/patch.diff /verif/seeded/{}/demo.py > /verif/seeded/{}/eval.txt 2>&1'
+ls -d /verif/seeded/C*-*m[0-9] | xargs -n1 basename | xargs -P ${1:-4} -I{} sh -c 'SKIP_SUITE=${SKIP_SUITE:-} /verif/tools/eval_mutant.sh /verif/seeded/{}/patch.diff /verif/seeded/{}/demo.py > /verif/seeded/{}/eval.txt 2>&1'
